@@ -494,6 +494,8 @@ def build(spec: dict):
         rec.fns = list(spec["fns"])
     rec.dump_at = spec.get("dump_at")
     rec.dump_subprocess = bool(spec.get("dump_subprocess", False))
+    # (a deep copy does not copy functions: an objective given as a lambda would keep reporting to the live recorder)
+    rec.branch_copy = bool(spec.get("branch_copy", False)) and spec.get("objective_form") != "lambda"
     script = spec.get("script")
     levels = []
     problems = []
